@@ -244,3 +244,16 @@ Ltac nofail_deep :=
     | lazymatch goal with
       | |- hoare _ ?m _ _ => let h := head_of m in unfold h
       end ].
+
+(* a read followed by a continuation that starts in the very state that was read *)
+Lemma hoare_bind_gets_eq A B (P : State -> Prop) (g : State -> A) (f : A -> M B) (Q : B -> State -> Prop) (X : State -> Prop) :
+  (forall s0, P s0 -> hoare (fun s => s = s0) (f (g s0)) Q X) -> hoare P (bind (gets g) f) Q X.
+Proof. intros H s Hs; unfold bind, gets. exact (H s Hs s eq_refl). Qed.
+Lemma hoare_pre A (P P' : State -> Prop) (m : M A) (Q : A -> State -> Prop) (X : State -> Prop) :
+  (forall s, P s -> P' s) -> hoare P' m Q X -> hoare P m Q X.
+Proof. intros HP H s Hs; exact (H s (HP s Hs)). Qed.
+Lemma hoare_post A (P : State -> Prop) (m : M A) (Q Q' : A -> State -> Prop) (X X' : State -> Prop) :
+  (forall a s, Q' a s -> Q a s) -> (forall s, X' s -> X s) -> hoare P m Q' X' -> hoare P m Q X.
+Proof. intros HQ HX H s Hs; specialize (H s Hs); destruct (m s); auto. Qed.
+Lemma inv_of_hoare A (J : State -> Prop) (m : M A) : hoare J m (fun _ => J) J -> inv J m.
+Proof. intros H; apply inv_hoare; exact H. Qed.
